@@ -61,6 +61,26 @@ def cases(draw):
             i = draw(st.integers(0, ar - 1))
             b[i] = draw(st.integers(0, npool - 1).filter(lambda x: x != a[i]))
         return {'part': 'render', 'notation': n, 'a': a, 'b': b}
+    if draw(st.integers(0, 2)) == 0:
+        # an interpreter-level call trace (every instruction the serialiser can emit, empty instantiations included), run once
+        # under the serialising and once under the pretty-printing interpreter
+        from proof_generation.basic_interpreter import BasicInterpreter
+        from proof_generation.interpreter import ExecutionPhase
+        from lib import histories as H
+
+        axioms, specs = H.draw_setup(draw)
+        r = H.Runner(BasicInterpreter(ExecutionPhase.Gamma), axioms, specs)
+        trace = []
+        for _ in range(draw(st.integers(3, 25))):
+            step = H.draw_step(draw, r)
+            try:
+                r.apply(step)
+            except H.Skip:
+                continue
+            except Exception:
+                break
+            trace.append(step)
+        return {'part': 'hist-steps', 'setup': H.setup_to_json(axioms, specs), 'trace': trace}
     return {'part': 'steps', 'desc': draw(MD.module_descs(with_apps=True, rich=True, allow_taut=False, sym_pool=('a', 'b', 'c')))}
 
 
@@ -168,6 +188,45 @@ def body(c, stats: Stats):
         if depends and sa == sb:
             raise Violation('notation %s: applications to %s and to %s denote different patterns but are both printed as %r'
                             % (notations.label_of(n), [str(x) for x in a], [str(x) for x in b], sa), c, 'render-same:' + n.label)
+        return
+    if c['part'] == 'hist-steps':
+        import io
+        from proof_generation.claim import Claim
+        from proof_generation.interpreter import ExecutionPhase
+        from proof_generation.pretty_printing_interpreter import PrettyPrintingInterpreter
+        from proof_generation.serializing_interpreter import SerializingInterpreter
+        from lib import histories as H
+
+        class BS(io.BytesIO):
+            def close(self): pass
+
+        class TS(io.StringIO):
+            def close(self): pass
+
+        axioms, specs = H.setup_from_json(c['setup'])
+        cps = H.Runner.claim_patterns(axioms, specs)
+        outs = {}
+        for kind in ('binary', 'pretty'):
+            sinks = [BS(), BS(), BS()] if kind == 'binary' else [TS(), TS(), TS()]
+            cls = SerializingInterpreter if kind == 'binary' else PrettyPrintingInterpreter
+            it = cls(ExecutionPhase.Gamma, sinks[0], [Claim(x) for x in cps], sinks[1], sinks[2])
+            r = H.Runner(it, axioms, specs)
+            for step in c['trace']:
+                try:
+                    r.apply(step)
+                except H.Skip:
+                    continue
+                except Exception:
+                    stats.excluded['trace-refused-by-interpreter'] += 1
+                    return
+            outs[kind] = [x.getvalue() for x in sinks]
+        symmap = {'fwd': {}, 'bwd': {}}
+        total = 0
+        for phase in range(3):
+            total += align(outs['pretty'][phase], outs['binary'][phase], symmap, 'call trace, phase %d' % phase, c)
+        stats.case(b'|'.join(outs['binary']), total >= 20, ['hist-steps', 'instr>=20' if total >= 20 else 'instr<20']
+                   + (['has-empty-instantiate'] if any(s[0] == 'instantiate_top' and not s[1] for s in c['trace']) else []),
+                   {'instructions': total, 'trace': c['trace'][:12]})
         return
     desc = c['desc']
     try:
